@@ -21,7 +21,7 @@ from .model import AnalysisError, FunctionInfo
 from .report import RuleResult
 from .terms import (Attr, BoundMethod, Call, ClassRef, Const, EnumMember, Evaluator, Ext, FuncRef, Ite, Loop, New, Op,
                     Opaque, Outcome, Sub, Sym, Term, TupleT, alternatives, default_inline, expand_outcomes, reduce_guards, flat_guards, implied_literals, unglobal, guards_repr, norm_guards, walk)
-from .util import call_name, call_recv, method_calls
+from .util import call_name, call_recv, devirtualise, method_calls
 
 ALIAS = {'a': 'operand1', 'b': 'operand2', 'p': 'condition', 'phi': 'condition', 'd': 'domain', 'x': 'variable', 'op': 'operator', 'operand': 'operand1'}
 IH_FUNCS = ('_and_presplit_transform', '_split_and_not', '_split_and_quantifier')
@@ -728,6 +728,7 @@ def R3(ctx: Ctx) -> RuleResult:
     fi, outs = ev_m(PE, 'negate')
     self_p = Sym('self', PE)
     e = Attr(self_p, 'expression')
+    outs = devirtualise(ctx, ctx.ev, outs, {e: 'HplExpression'})     # the expression may be asked to negate itself
     saw_dn = saw_not = False
     for o in outs:
         v = o.value
@@ -766,6 +767,7 @@ def R3(ctx: Ctx) -> RuleResult:
     ok = len(outs) == 1 and outs[0].value == Sym('self', CT)
     (r.ok('False & q = False') if ok else r.fail(f'{CT}.join', f'expected self, got {[str(o)[:60] for o in outs]}', fi.where))
     fi, outs = ev_m(PE, 'join', {'other': other})
+    outs = devirtualise(ctx, ctx.ev, outs, {other: 'HplPredicate'}, ('is_vacuous', 'is_true'))     # double dispatch on the kind of `other`
     cases = {}
     all_cases = []
     for o in outs:
@@ -776,7 +778,7 @@ def R3(ctx: Ctx) -> RuleResult:
             tru = next((pol for g, pol in gg if isinstance(g, Attr) and g.base == other and g.name == 'is_true'), None)
             cases[(vac, tru)] = leaf
             all_cases.append(((vac, tru), leaf, gg))
-    want_and = lambda v: isinstance(v, New) and v.cls == PE and isinstance(v.get('expression'), New) and _binop(v.get('expression')) == 'and' and {v.get('expression').get('operand1'), v.get('expression').get('operand2')} == {e, Attr(other, 'condition')}
+    want_and = lambda v: isinstance(v, New) and v.cls == PE and isinstance(v.get('expression'), New) and _binop(v.get('expression')) == 'and' and {v.get('expression').get('operand1'), v.get('expression').get('operand2')} in ({e, Attr(other, 'condition')}, {e, Attr(other, 'expression')})
     checks = [((True, True), lambda v: v == self_p, 'p & True = p'), ((True, False), lambda v: v == other, 'p & False = False'), ((False, None), want_and, 'p & q = And(p, q)')]
     for k, pred, label in checks:
         v = cases.get(k)
